@@ -61,6 +61,9 @@ CHECKS = {
  "C16": ("exploration", "before/after universe snapshot + byte comparison of repeated outputs + file-object tracking (wrapped builtins.open, weak references) around compose",
          "for EDIF/Verilog/EBLIF and all composer options: nothing but the documented EDIF side effects changes; second and third compose (after queries) are byte-identical modulo timeStamp and change nothing; every file opened for writing is closed at return, content complete.",
          "'closed at return' decided under CPython reference counting; netlists the composer refuses are counted, not judged (C03/C04/C18 judge that)", "4 C16"),
+ "C15": ("fault_enumeration", "single-token fault injection into valid EDIF/Verilog/EBLIF texts under a logical-step budget, with a process-residue monitor and a fresh-process probe transcript",
+         "every injected fault: the reader terminates within the step budget, a returned netlist is self-contained, dangling EDIF references / unsupported constructs are rejected, and the naming policy, callback registries and fast lookups are unchanged; a probe script behaves as in a fresh process. Thorough tier enumerates the complete single-token fault space per text (capped at 6000 faults per text by stride).",
+         "fault model = single-token corruptions with a fixed replacement vocabulary; contents the reader deliberately skips (design properties, numberDefinition) are exempt from the must-reject rule", "4 C15"),
 }
 NA = {}
 fixes = subprocess.run(["git", "-C", "/repo", "log", "--format=%h %s"], capture_output=True, text=True).stdout.splitlines()
